@@ -160,6 +160,8 @@ def _mk_exc(i):
         return BadExtract("bad extract")
     if i == 11:
         return MutualA("mutual")
+    if i == 12:
+        return BoolBoom("boolboom")
     raise IndexError(i)
 
 
@@ -168,7 +170,7 @@ N_EXC = 10
 # exit attribute: 0 = normal return; else (catch_up, exception index)
 # catch_up: number of enclosing action boundaries the exception crosses after
 # leaving this action before it is caught (99 = to the top of the program).
-EXITS = [None] + [(0, e) for e in range(N_EXC)] + [(1, 0), (99, 0), (1, 3), (99, 6), (2, 2), (0, 10), (99, 10), (0, 11)]
+EXITS = [None] + [(0, e) for e in range(N_EXC)] + [(1, 0), (99, 0), (1, 3), (99, 6), (2, 2), (0, 10), (99, 10), (0, 11), (0, 12), (1, 12)]
 
 
 def exc_name(e):
@@ -305,6 +307,16 @@ class MutualA(Exception):
 
 class MutualB(Exception):
     pass
+
+
+class BoolBoom(Exception):
+    """Application exception whose truth value cannot be taken."""
+
+    def __bool__(self):
+        raise RuntimeError("no truth value")
+
+    def __len__(self):
+        raise RuntimeError("no len")
 
 
 TYPED_MSG = MessageType("app:typed", [Field("tv", _wrap, "wrapped")], "typed message")
